@@ -22,6 +22,7 @@ int __real_pthread_mutex_trylock(pthread_mutex_t *);
 int __real_pthread_mutex_unlock(pthread_mutex_t *);
 int __real_usleep(useconds_t);
 time_t __real_time(time_t *);
+FILE *__real_fopen(const char *, const char *);
 }
 
 // =============================================================== allocation layer
@@ -115,6 +116,16 @@ extern "C" void __wrap_free(void *p) {
         t_in_sut = save;
     }
     __real_free(p);
+}
+
+// =============================================================== file layer (qlog rotation)
+static thread_local int t_fopen_fail = 0;
+static uint64_t g_fopen_failed = 0;
+void sim_fopen_fail(int n) { t_fopen_fail = n; }
+uint64_t sim_fopen_failed() { return g_fopen_failed; }
+extern "C" FILE *__wrap_fopen(const char *path, const char *mode) {
+    if (t_in_sut && t_fopen_fail > 0) { t_fopen_fail--; g_fopen_failed++; errno = EACCES; return NULL; }
+    return __real_fopen(path, mode);
 }
 
 // =============================================================== clock
